@@ -1,6 +1,6 @@
 """C07 -- indexes sharing one database never affect each other."""
 from facts import strip, show, walk
-from rules import (db_ops, cursor_ops, key_info, same, KEY_CTORS, WHOLE_DB_OPS, owner_path, root, cursor_root_call, sp)
+from rules import (db_ops, cursor_ops, key_info, same, full_kind_range, KEY_CTORS, WHOLE_DB_OPS, owner_path, root, cursor_root_call, sp)
 
 EXPL = ("Decided by index-provenance over the MIR origin terms of every key: (R-INDEX-KEY) the index argument of every "
         "Key::/Prefix:: constructor call in the library is the function's own index -- `self.index` (also through closure "
@@ -117,14 +117,10 @@ def r_index_op(ctx):
         ordn[base] = ordn.get(base, 0) + 1
         key = '%s#%d' % (base, ordn[base])
         ki = key_info(t)
-        if op.endswith('range') or 'range' in op:
-            ctors = [s for s in walk(t) if s[0] == 'call' and s[1] in KEY_CTORS]
-            incl = any(s[0] == 'call' and 'RangeInclusive' in s[1] for s in walk(t)) or any(s[0] == 'agg' and 'RangeInclusive' in s[1] for s in walk(t))
-            good = (len(ctors) == 2 and ctors[0][1] == ctors[1][1] == 'key::Key::tree' and same(ctors[0][2][0], ctors[1][2][0])
-                    and strip(ctors[0][2][1])[0] == 'const' and strip(ctors[0][2][1])[2] == 0
-                    and strip(ctors[1][2][1])[0] == 'const' and strip(ctors[1][2][1])[2] == 0xFFFFFFFF and incl)
-            ctx.check(good, rule, key, c.loc(), 'range = Key::tree(idx,0) ..= Key::tree(idx,u32::MAX) of one index',
-                      'range bounds of `%s` in `%s` are not the inclusive tree range of one index: %s' % (op, f.path, show(t)))
+        if 'range' in op:
+            fr = full_kind_range(t)
+            ctx.check(fr is not None, rule, key, c.loc(), 'range = Key::k(idx,0) ..= Key::k(idx,u32::MAX): exactly one kind of one index',
+                      'range bounds of `%s` in `%s` are not the inclusive full id range of one kind of one index: %s' % (op, f.path, show(t)))
             continue
         if ki:
             ctx.ok(rule, key, c.loc(), 'key built by %s' % ki[0])
@@ -158,7 +154,7 @@ def r_whole_db(ctx):
     F = ctx.F
     rule = 'R-WHOLE-DB'
     for f, c, op, w, k in db_ops(F):
-        if op in WHOLE_DB_OPS or op not in ('put', 'put_with_flags', 'delete', 'delete_range', 'get', 'prefix_iter', 'prefix_iter_mut'):
+        if op in WHOLE_DB_OPS or k is None:
             key = '%s/%s' % (owner_path(f), op)
             why = WHOLE_ALLOWED.get((op, owner_path(f)))
             if why and not (w and op != 'clear'):
